@@ -43,3 +43,46 @@ Definition write_ok (k : bytes) (w : cwrite) : Prop :=
 
 (* a readable key: metadata present and every announced chunk present with the metadata's token *)
 Definition readable (st : store) (now : N) (k : bytes) : Prop := abs_entry st now k <> None.
+
+(* ---- refinement of every chunked command to the reference map (C04, C09) ---- *)
+(* the client-visible map stored in backend store st *)
+Definition abs_store (st : store) (now : N) : store := fun k => abs_entry st now k.
+
+(* a backend store as the handler leaves it when nothing was lost: whenever the metadata of a
+   key is live, the value is readable (all announced chunks live with the metadata's token),
+   every backend entry of the key carries the metadata entry's deadline, and the expiry
+   recorded INSIDE the metadata agrees with that deadline *)
+Definition exptime_agrees (md : meta) (d : deadline) : Prop :=
+  match d with Never => m_exptime md = 0 | At t => m_exptime md = t end.
+Definition wf_key (st : store) (now : N) (k : bytes) : Prop :=
+  forall me, live now st (meta_key k) = Some me ->
+    let md := dec_meta (e_data me) in
+    abs_entry st now k <> None /\
+    exptime_agrees md (e_dl me) /\
+    m_flags md < 4294967296 /\ m_length md < 4294967296 /\
+    m_instime md < 4294967296 /\ m_exptime md < 4294967296 /\
+    m_csize md = chunk_data (len k) /\ m_nchunks md = num_chunks (m_length md) (m_csize md) /\
+    len (m_token md) = tokenSize /\
+    forall i e, i < m_nchunks md -> live now st (chunk_key k i) = Some e -> e_dl e = e_dl me.
+Definition wf_store (st : store) (now : N) : Prop := forall k, 1 <= len k <= 250 -> wf_key st now k.
+
+(* the handler's clock agrees with the backend's, and the call is one the theorems cover *)
+Definition call_ok (tok : bytes) (cnow now : N) (q : hreq) : Prop :=
+  cnow = now /\ len tok = tokenSize /\ now < 2147483648 /\
+  match q with
+  | HSet _ k d f ttl => 1 <= len k <= 250 /\ len d < 4294967296 /\ f < 4294967296 /\ ttl < 4294967296 /\
+                        cnow + ttl < 4294967296 /\ snd (c_exptime cnow ttl) = false   (* not an absolute-past TTL: known finding *)
+  | HCat _ k d => 1 <= len k <= 250 /\ len d < 2147483648 /\
+                  realTimeMaxDelta < now   (* the recorded absolute expiry is re-used as a TTL: only an absolute one above 30 days *)
+  | HDelete k => 1 <= len k <= 250
+  | HTouch k ttl | HGat k ttl _ => 1 <= len k <= 250 /\ ttl < 4294967296 /\ cnow + ttl < 4294967296
+  | HGet items => Forall (fun it => 1 <= len (gi_key it) <= 250) items
+  | HGetE _ => False
+  end.
+
+(* append/prepend: the concatenated value still fits the metadata's 32-bit length field *)
+Definition cat_fits (st : store) (now : N) (q : hreq) : Prop :=
+  match q with
+  | HCat _ k d => forall e, abs_entry st now k = Some e -> len (e_data e) + len d < 4294967296
+  | _ => True
+  end.
